@@ -408,3 +408,423 @@ Section End.
   Lemma parse_more_end fuel rest : group_end rest = true -> parse_more sub fuel DEFAULT_FIELD rest = ([], rest).
   Proof. intros H. destruct fuel; [reflexivity|]. cbn [parse_more]. rewrite parse_next_end by exact H. reflexivity. Qed.
 End End.
+
+(* ---------- the induction over the tree ---------- *)
+
+Lemma skip_length s : (List.length (skip s) <= List.length s)%nat.
+Proof. induction s as [|c s IH]; cbn; [lia|]. destruct (is_ws c); cbn; lia. Qed.
+
+Lemma skip_fix c r : skip (c :: r) = c :: r -> is_ws c = false.
+Proof.
+  cbn. destruct (is_ws c); [|reflexivity]. intros H. pose proof (skip_length r) as L. rewrite H in L. cbn in L. lia.
+Qed.
+
+Lemma multiterm_more_end fuel rest : group_end rest = true -> multiterm_more fuel rest = ([], rest).
+Proof.
+  intros H. destruct fuel; [reflexivity|]. destruct rest as [|c r]; [reflexivity|].
+  cbn [group_end] in H. apply N.eqb_eq in H. subst c. reflexivity.
+Qed.
+
+Section Main.
+  Variable fdisp : spec_float -> bytes.
+  Variable fok : spec_float -> bool.
+  Hypothesis Hfloat : forall f, fok f = true -> num_text_ok (fdisp f) (CFloat f).
+  Notation tl := (to_lucene fdisp).
+  Notation wrapped := (wrapped fdisp).
+  Notation item_text := (item_text fdisp).
+  Notation items_text := (items_text fdisp).
+  Notation safe := (safe fok).
+  Notation leaf_ok := (leaf_ok fok).
+
+  (* n printed as a clause (in parentheses when it is a NOT or a list) *)
+  Definition CL (n : node) : Prop :=
+    forall f rest, (depth n <= f)%nat -> term_end rest = true ->
+    parse_clause (parse_query f) DEFAULT_FIELD (wrapped n ++ rest) = Some (VOk n, rest).
+
+  (* n printed as a whole (sub)query *)
+  Definition QR (n : node) : Prop :=
+    forall f rest, (depth n <= S f)%nat -> group_end rest = true ->
+    exists items, parse_query (S f) DEFAULT_FIELD (tl n ++ rest) = Some (items, rest) /\
+                  fold_query DEFAULT_FIELD items = finish n.
+
+  (* n printed as an item of a list *)
+  Definition IT (n : node) : Prop :=
+    forall f rest, (depth n <= f)%nat -> term_end rest = true ->
+    parse_mod_clause (parse_query f) DEFAULT_FIELD (item_text n ++ rest) = Some (items_of n, rest).
+
+  Lemma leaf_shape n : leaf_ok n = true -> is_not_node n = false /\ is_bool_node n = false /\ is_none_node n = false.
+  Proof. destruct n; cbn; intros H; try discriminate; auto. Qed.
+
+  Lemma leaf_wrapped n : leaf_ok n = true -> wrapped n = tl n /\ item_text n = tl n /\ items_of n = [QClause (VOk n)].
+  Proof.
+    intros H. destruct (leaf_shape n H) as (A & B & _). unfold DdSearchQuery.wrapped. rewrite A, B.
+    destruct n; try discriminate; repeat split; cbn [DdSearchQuery.item_text]; unfold DdSearchQuery.wrapped; cbn; reflexivity.
+  Qed.
+
+  Lemma leaf_nonws n rest : leaf_ok n = true -> skip (tl n ++ rest) = tl n ++ rest.
+  Proof.
+    intros L. destruct (tl n) as [|c r] eqn:E.
+    - pose proof (leaf_clause (fun _ _ => None) fdisp fok Hfloat n [] L eq_refl) as H. rewrite E in H. discriminate.
+    - destruct (leaf_start fdisp fok n [] L eq_refl) as (S & _). rewrite E, app_nil_r in S.
+      cbn [app]. apply skip_head. apply (skip_fix c r S).
+  Qed.
+
+  Lemma leaf_CL n : leaf_ok n = true -> CL n.
+  Proof.
+    intros L f rest _ E. destruct (leaf_wrapped n L) as (-> & _). apply leaf_clause with (fok := fok); auto.
+  Qed.
+
+  Lemma leaf_IT n : leaf_ok n = true -> IT n.
+  Proof.
+    intros L f rest _ E. destruct (leaf_wrapped n L) as (_ & -> & ->).
+    unfold parse_mod_clause. destruct (leaf_start fdisp fok n rest L E) as (S & M & _).
+    rewrite M, S. rewrite (leaf_clause _ fdisp fok Hfloat n rest L E). reflexivity.
+  Qed.
+
+  Lemma leaf_QR n : leaf_ok n = true -> QR n.
+  Proof.
+    intros L f rest _ G. pose proof (group_end_term_end rest G) as E.
+    destruct (leaf_start fdisp fok n rest L E) as (S & M & La).
+    cbn [parse_query]. unfold parse_query_body, parse_multiterm, multiterm_item.
+    destruct (is_default_term n) eqn:D.
+    - (* a bare term: read as a multiterm of one *)
+      destruct n; try discriminate. cbn [is_default_term] in D. apply bytes_eqb_eq in D. subst attr.
+      cbn [DdSearchQuery.leaf_ok] in L. apply andb_true_iff in L as [_ T].
+      change (tl (NTerm DdSearch.DEFAULT_FIELD v)) with (lucene_escape v) in *.
+      assert (multiterm_lookahead (lucene_escape v ++ rest) = true) as ->.
+      { unfold multiterm_lookahead. rewrite (lex_term_escaped v rest T (term_end_stops rest E)).
+        destruct rest as [|c r]; [reflexivity|]. cbn [group_end] in G. apply N.eqb_eq in G. subst c. reflexivity. }
+      rewrite S, (lex_term_escaped v rest T (term_end_stops rest E)).
+      rewrite (multiterm_more_end _ rest G), (parse_more_end _ _ rest G).
+      eexists. split; [reflexivity|]. cbn. rewrite unescape_lucene_escape. reflexivity.
+    - rewrite (La (or_intror eq_refl)). unfold parse_mod_clause. rewrite M, S.
+      rewrite (leaf_clause _ fdisp fok Hfloat n rest L E). cbn [app]. rewrite (parse_more_end _ _ rest G).
+      eexists. split; [reflexivity|]. destruct (leaf_wrapped n L) as (_ & _ & <-). apply fold_single.
+  Qed.
+
+  (* a parenthesised NOT / list is read through the sub-query *)
+  Lemma clause_of_query n :
+    is_not_node n || is_bool_node n = true -> is_not_all n = false ->
+    (forall rest, skip (tl n ++ rest) = tl n ++ rest) -> QR n -> CL n.
+  Proof.
+    intros W NA Hs Hq f rest D E. unfold DdSearchQuery.wrapped. rewrite W.
+    destruct f as [|f].
+    { destruct n; cbn in W; try discriminate; cbn in D; lia. }
+    destruct (Hq f (41 :: rest) D eq_refl) as (items & Pq & Fq).
+    rewrite parse_clause_eq. unfold paren. cbn [app]. rewrite <- app_assoc. cbn [app].
+    change (strip_prefix (bs "*:*") (40 :: tl n ++ 41 :: rest)) with (@None bytes).
+    change (parse_field_opt (40 :: tl n ++ 41 :: rest)) with (@None bytes, 40 :: tl n ++ 41 :: rest).
+    cbv beta iota zeta.
+    change (skip (40 :: tl n ++ 41 :: rest)) with (40 :: tl n ++ 41 :: rest).
+    change (parse_value (40 :: tl n ++ 41 :: rest)) with (@None (pvalue * bytes)).
+    change (strip_prefix [40] (40 :: tl n ++ 41 :: rest)) with (Some (tl n ++ 41 :: rest)).
+    cbv beta iota. rewrite Hs. cbn [or_default]. rewrite Pq.
+    change (strip_prefix [41] (skip (41 :: rest))) with (Some rest).
+    cbv beta iota. rewrite Fq. destruct n; try discriminate; try reflexivity.
+    destruct n; try reflexivity. discriminate.
+  Qed.
+
+  (* --- items --- *)
+
+  Lemma not_item m :
+    CL m -> (forall rest, skip (wrapped m ++ rest) = wrapped m ++ rest) ->
+    forall f rest, (depth m <= f)%nat -> term_end rest = true ->
+    parse_mod_clause (parse_query f) DEFAULT_FIELD (bs "NOT " ++ wrapped m ++ rest) = Some (items_of (NNot m), rest).
+  Proof.
+    intros Hc Hs f rest D E. unfold parse_mod_clause.
+    change (parse_modifiers (bs "NOT " ++ wrapped m ++ rest)) with (Some (true, 32 :: wrapped m ++ rest)).
+    cbv beta iota. change (skip (32 :: wrapped m ++ rest)) with (skip (wrapped m ++ rest)).
+    rewrite Hs, (Hc f rest D E). reflexivity.
+  Qed.
+
+  Lemma paren_nonws X rest : skip (paren X ++ rest) = paren X ++ rest.
+  Proof. reflexivity. Qed.
+
+  (* the first character of what is printed for a safe node is not a blank *)
+  Lemma wrapped_nonws n rest :
+    safe n = true -> is_none_node n = false -> skip (wrapped n ++ rest) = wrapped n ++ rest.
+  Proof.
+    intros S N. unfold DdSearchQuery.wrapped. destruct (is_not_node n || is_bool_node n) eqn:W; [reflexivity|].
+    apply leaf_nonws. destruct n; try discriminate; exact S.
+  Qed.
+
+  Lemma item_nonws n rest :
+    safe n = true -> is_none_node n = false -> skip (item_text n ++ rest) = item_text n ++ rest.
+  Proof.
+    intros S N. destruct n; try (apply wrapped_nonws; assumption). reflexivity.
+  Qed.
+
+  Lemma and_items_not_not ns :
+    forallb (item_ok fok BAnd) ns = true -> forallb (fun y => negb (is_not_not y)) ns = true.
+  Proof.
+    induction ns as [|y ns IH]; [reflexivity|]. cbn [forallb]. intros H. apply andb_true_iff in H as [Hy H].
+    unfold item_ok in Hy. apply andb_true_iff in Hy as [_ Hy]. rewrite Hy, IH; auto.
+  Qed.
+
+  Lemma tl_list op x ns :
+    forallb (item_ok fok op) (x :: ns) = true -> tl (NBool op (x :: ns)) = item_text x ++ items_text op ns.
+  Proof.
+    intros H. destruct op; [apply tl_and; apply and_items_not_not; exact H | apply tl_or].
+  Qed.
+
+  Lemma item_ok_parts op x :
+    item_ok fok op x = true -> is_none_node x = false /\ safe x = true.
+  Proof.
+    unfold item_ok. intros H. apply andb_true_iff in H as [H _]. apply andb_true_iff in H as [N S].
+    apply negb_true_iff in N. auto.
+  Qed.
+
+  Lemma tl_nonws n rest : safe n = true -> skip (tl n ++ rest) = tl n ++ rest.
+  Proof.
+    intros S. destruct n; try (apply leaf_nonws; exact S); try reflexivity.
+    - rewrite tl_not. reflexivity.
+    - rewrite safe_bool in S. apply andb_true_iff in S as [L F].
+      destruct ns as [|x ns]; [discriminate|]. rewrite (tl_list op x ns F).
+      cbn [forallb] in F. apply andb_true_iff in F as [Fx F]. destruct (item_ok_parts op x Fx) as [Nx Sx].
+      rewrite <- app_assoc. apply item_nonws; assumption.
+  Qed.
+
+  (* an item that is not a negation *)
+  Lemma plain_item x :
+    is_not_node x = false -> is_none_node x = false -> safe x = true -> CL x ->
+    forall f rest, (depth x <= f)%nat -> term_end rest = true ->
+    parse_mod_clause (parse_query f) DEFAULT_FIELD (item_text x ++ rest) = Some (items_of x, rest).
+  Proof.
+    intros NN N S Hc f rest D E.
+    assert (item_text x = wrapped x /\ items_of x = [QClause (VOk x)]) as [-> ->].
+    { destruct x; try discriminate; split; reflexivity. }
+    unfold parse_mod_clause.
+    assert (parse_modifiers (wrapped x ++ rest) = None) as ->.
+    { unfold DdSearchQuery.wrapped. rewrite NN. cbn [orb]. destruct (is_bool_node x) eqn:B; [reflexivity|].
+      assert (leaf_ok x = true) as L by (destruct x; try discriminate; exact S).
+      apply (leaf_start fdisp fok x rest L E). }
+    rewrite (wrapped_nonws x rest S N), (Hc f rest D E). reflexivity.
+  Qed.
+
+  (* in first position the text of an item is not taken for a multiterm *)
+  Lemma first_no_multiterm x rest :
+    safe x = true -> is_none_node x = false -> follows_conj rest = true ->
+    parse_multiterm (item_text x ++ rest) = None.
+  Proof.
+    intros S N F. unfold parse_multiterm, multiterm_item.
+    assert (multiterm_lookahead (item_text x ++ rest) = false) as ->; [|reflexivity].
+    destruct x; try discriminate; try reflexivity;
+      try (apply (leaf_start fdisp fok _ rest S (follows_conj_term_end rest F)); left; exact F).
+    (* a parenthesised / negated list *)
+    all: cbn [DdSearchQuery.item_text]; unfold DdSearchQuery.wrapped; cbn [is_not_node is_bool_node orb]; reflexivity.
+  Qed.
+
+  Lemma sep_follows op X : follows_conj (sep op ++ X) = true.
+  Proof. destruct op; reflexivity. Qed.
+
+  Lemma items_text_end op ns rest :
+    group_end rest = true -> term_end (items_text op ns ++ rest) = true.
+  Proof.
+    intros G. destruct ns as [|x ns]; [apply group_end_term_end; exact G|]. destruct op; reflexivity.
+  Qed.
+
+  Lemma items_text_length op ns rest : (List.length ns <= List.length (items_text op ns ++ rest))%nat.
+  Proof.
+    induction ns as [|x ns IH]; [cbn; lia|]. cbn [DdSearchQuery.items_text]. rewrite <- !app_assoc, !app_length.
+    rewrite app_length in IH. assert (1 <= List.length (sep op))%nat by (destruct op; cbn; lia). cbn [List.length]. lia.
+  Qed.
+
+  (* the rest of a list: ( AND|OR item )* up to the end of the (sub)query *)
+  Lemma more_items op f ns : forall fuel rest,
+    Forall (fun x => IT x /\ safe x = true /\ is_none_node x = false /\ (depth x <= f)%nat) ns ->
+    (List.length ns <= fuel)%nat -> group_end rest = true ->
+    parse_more (parse_query f) fuel DEFAULT_FIELD (items_text op ns ++ rest) =
+    (list_items (match op with BAnd => false | BOr => true end) ns, rest).
+  Proof.
+    induction ns as [|y ns IH]; intros fuel rest HF L G.
+    - apply parse_more_end; exact G.
+    - inversion HF as [|? ? (Hit & Sy & Ny & Dy) HF']; subst. destruct fuel as [|fuel]; [cbn in L; lia|].
+      cbn [DdSearchQuery.items_text]. rewrite <- !app_assoc. cbn [parse_more].
+      set (R := items_text op ns ++ rest).
+      assert (term_end R = true) as ER by (apply items_text_end; exact G).
+      assert (parse_next (parse_query f) DEFAULT_FIELD (skip (sep op ++ item_text y ++ R)) =
+              Some (QConj (match op with BAnd => false | BOr => true end) :: items_of y, R)) as ->.
+      { unfold parse_next. destruct op.
+        - change (skip (sep BAnd ++ item_text y ++ R)) with (bs "AND" ++ 32 :: item_text y ++ R).
+          change (parse_multiterm (bs "AND" ++ 32 :: item_text y ++ R)) with (@None (list bytes * bytes)).
+          change (parse_conjunction (bs "AND" ++ 32 :: item_text y ++ R)) with (Some (false, 32 :: item_text y ++ R)).
+          cbv beta iota. change (skip (32 :: item_text y ++ R)) with (skip (item_text y ++ R)).
+          rewrite (item_nonws y R Sy Ny), (Hit f R Dy ER). reflexivity.
+        - change (skip (sep BOr ++ item_text y ++ R)) with (bs "OR" ++ 32 :: item_text y ++ R).
+          change (parse_multiterm (bs "OR" ++ 32 :: item_text y ++ R)) with (@None (list bytes * bytes)).
+          change (parse_conjunction (bs "OR" ++ 32 :: item_text y ++ R)) with (Some (true, 32 :: item_text y ++ R)).
+          cbv beta iota. change (skip (32 :: item_text y ++ R)) with (skip (item_text y ++ R)).
+          rewrite (item_nonws y R Sy Ny), (Hit f R Dy ER). reflexivity. }
+      unfold R. rewrite (IH fuel rest HF'); [reflexivity | cbn in L; lia | exact G].
+  Qed.
+
+  (* --- the tree --- *)
+
+  Definition good (n : node) : Prop :=
+    safe n = true ->
+    QR n /\ (is_none_node n = false -> IT n /\ (is_not_all n = false -> CL n)).
+
+  Lemma max_depth_le f ns :
+    (fold_right (fun x m => Nat.max (depth x) m) O ns <= f)%nat -> Forall (fun x => (depth x <= f)%nat) ns.
+  Proof.
+    induction ns as [|x ns IH]; [constructor|]. cbn [fold_right]. intros H. constructor; [lia|]. apply IH. lia.
+  Qed.
+
+  Lemma children_items op f ns :
+    Forall good ns -> forallb (item_ok fok op) ns = true -> Forall (fun x => (depth x <= f)%nat) ns ->
+    Forall (fun x => IT x /\ safe x = true /\ is_none_node x = false /\ (depth x <= f)%nat) ns.
+  Proof.
+    induction ns as [|x ns IH]; intros HG HF HD; [constructor|].
+    inversion HG; subst. inversion HD; subst. cbn [forallb] in HF. apply andb_true_iff in HF as [Hx HF].
+    destruct (item_ok_parts op x Hx) as [Nx Sx]. constructor; [|apply IH; auto].
+    destruct (H1 Sx) as [_ Hit]. destruct (Hit Nx) as [It _]. auto.
+  Qed.
+
+  Theorem all_good n : good n.
+  Proof.
+    induction n using node_ind'; intros S.
+    - (* *:* *) split; [apply leaf_QR; exact S | intros _; split; [apply leaf_IT; exact S | intros _; apply leaf_CL; exact S]].
+    - (* -*:* *) split; [|discriminate]. intros f rest _ G. exists [QMod true; QClause (VOk NAll)]. split; [|reflexivity].
+      cbn [parse_query]. unfold parse_query_body.
+      change (parse_multiterm (tl NNone ++ rest)) with (@None (list bytes * bytes)).
+      change (parse_mod_clause (parse_query f) DEFAULT_FIELD (tl NNone ++ rest))
+        with (Some ([QMod true; QClause (VOk NAll)], rest)).
+      cbv beta iota. rewrite (parse_more_end _ _ rest G). reflexivity.
+    - split; [apply leaf_QR; exact S | intros _; split; [apply leaf_IT; exact S | intros _; apply leaf_CL; exact S]].
+    - split; [apply leaf_QR; exact S | intros _; split; [apply leaf_IT; exact S | intros _; apply leaf_CL; exact S]].
+    - split; [apply leaf_QR; exact S | intros _; split; [apply leaf_IT; exact S | intros _; apply leaf_CL; exact S]].
+    - split; [apply leaf_QR; exact S | intros _; split; [apply leaf_IT; exact S | intros _; apply leaf_CL; exact S]].
+    - split; [apply leaf_QR; exact S | intros _; split; [apply leaf_IT; exact S | intros _; apply leaf_CL; exact S]].
+    - split; [apply leaf_QR; exact S | intros _; split; [apply leaf_IT; exact S | intros _; apply leaf_CL; exact S]].
+    - split; [apply leaf_QR; exact S | intros _; split; [apply leaf_IT; exact S | intros _; apply leaf_CL; exact S]].
+    - discriminate.
+    - (* NOT *)
+      cbn [DdSearchQuery.safe] in S. apply andb_true_iff in S as [S Sm]. apply andb_true_iff in S as [Nm NAm].
+      apply negb_true_iff in Nm, NAm. destruct (IHn Sm) as [_ Hm]. destruct (Hm Nm) as [_ Hcl].
+      specialize (Hcl NAm). pose proof (fun rest => wrapped_nonws n rest Sm Nm) as Hs.
+      assert (QR (NNot n)) as Hq.
+      { intros f rest D G. cbn [depth] in D. exists (items_of (NNot n)). split; [|apply fold_single].
+        cbn [parse_query]. unfold parse_query_body. rewrite tl_not, <- app_assoc.
+        change (parse_multiterm (bs "NOT " ++ wrapped n ++ rest)) with (@None (list bytes * bytes)).
+        rewrite (not_item n Hcl Hs f rest) by (try lia; apply group_end_term_end; exact G).
+        rewrite (parse_more_end _ _ rest G). reflexivity. }
+      split; [exact Hq|]. intros _. split.
+      + intros f rest D E. cbn [depth] in D. cbn [DdSearchQuery.item_text]. rewrite <- app_assoc.
+        apply not_item; auto. lia.
+      + intros NA. apply clause_of_query; auto. intros rest. apply tl_nonws.
+        cbn [DdSearchQuery.safe]. rewrite Nm, NAm, Sm. reflexivity.
+    - (* lists *)
+      pose proof S as S0. rewrite safe_bool in S. apply andb_true_iff in S as [L F].
+      destruct ns as [|x [|y ns]]; try discriminate.
+      assert (QR (NBool op (x :: y :: ns))) as Hq.
+      { intros f rest D G. rewrite depth_bool in D. apply le_S_n in D. apply max_depth_le in D.
+        pose proof (children_items op f _ H F D) as HI. inversion HI as [|? ? (Itx & Sx & Nx & Dx) HI']; subst.
+        exists (items_of x ++ list_items (match op with BAnd => false | BOr => true end) (y :: ns)).
+        split; [|destruct op; [apply fold_and_list | apply fold_or_list]].
+        cbn [parse_query]. unfold parse_query_body. rewrite (tl_list op x (y :: ns) F), <- app_assoc.
+        set (R := items_text op (y :: ns) ++ rest).
+        assert (follows_conj R = true) as FR.
+        { unfold R. cbn [DdSearchQuery.items_text]. rewrite <- app_assoc. apply sep_follows. }
+        rewrite (first_no_multiterm x R Sx Nx FR).
+        rewrite (Itx f R Dx (follows_conj_term_end R FR)).
+        unfold R. rewrite (more_items op f (y :: ns) _ rest HI' (items_text_length op (y :: ns) rest) G).
+        reflexivity. }
+      split; [exact Hq|]. intros _.
+      assert (CL (NBool op (x :: y :: ns))) as Hc.
+      { apply clause_of_query; auto. intros rest. apply tl_nonws. exact S0. }
+      split; [|intros _; exact Hc]. intros f rest D E. apply plain_item; auto.
+  Qed.
+
+  (* --- fuel: the nesting depth is below the length of the text --- *)
+
+  Lemma wrapped_length n : (List.length (tl n) <= List.length (wrapped n))%nat.
+  Proof.
+    unfold DdSearchQuery.wrapped. destruct (is_not_node n || is_bool_node n); [|lia].
+    unfold paren. cbn [List.length]. rewrite app_length. lia.
+  Qed.
+
+  Lemma item_length n : (List.length (tl n) <= List.length (item_text n))%nat.
+  Proof. destruct n; try apply wrapped_length. rewrite tl_not. cbn [DdSearchQuery.item_text]. lia. Qed.
+
+  Lemma items_length op ns c :
+    In c ns -> (List.length (item_text c) + 4 <= List.length (items_text op ns))%nat.
+  Proof.
+    induction ns as [|y ns IH]; [contradiction|]. cbn [DdSearchQuery.items_text]. rewrite !app_length.
+    assert (4 <= List.length (sep op))%nat by (destruct op; cbn; lia).
+    intros [->|Hc]; [lia | specialize (IH Hc); lia].
+  Qed.
+
+  Lemma depth_le_length n : safe n = true -> (depth n <= List.length (tl n))%nat.
+  Proof.
+    induction n using node_ind'; intros S; try (cbn [depth]; lia).
+    - cbn [DdSearchQuery.safe] in S. apply andb_true_iff in S as [_ Sm]. specialize (IHn Sm).
+      rewrite tl_not, app_length. pose proof (wrapped_length n). cbn [depth]. cbn [List.length bs]. lia.
+    - rewrite safe_bool in S. apply andb_true_iff in S as [L F].
+      destruct ns as [|x [|y ns]]; try discriminate. rewrite (tl_list op x (y :: ns) F), app_length, depth_bool.
+      assert (forall c, In c (x :: y :: ns) ->
+                (depth c + 4 <= List.length (item_text x) + List.length (items_text op (y :: ns)))%nat) as B.
+      { intros c Hc. rewrite Forall_forall in H. rewrite forallb_forall in F.
+        destruct (item_ok_parts op c (F c Hc)) as [_ Sc]. pose proof (H c Hc Sc) as Dc. pose proof (item_length c) as Lc.
+        destruct Hc as [->|Hc].
+        - assert (4 <= List.length (items_text op (y :: ns)))%nat.
+          { cbn [DdSearchQuery.items_text]. rewrite app_length. destruct op; cbn; lia. }
+          lia.
+        - pose proof (items_length op (y :: ns) c Hc). lia. }
+      assert (forall l, (forall c, In c l -> In c (x :: y :: ns)) ->
+                (fold_right (fun x m => Nat.max (depth x) m) O l + 4
+                 <= List.length (item_text x) + List.length (items_text op (y :: ns)))%nat) as M.
+      { induction l as [|c l IHl]; intros Hl; cbn [fold_right].
+        - pose proof (B x (or_introl eq_refl)). lia.
+        - pose proof (B c (Hl c (or_introl eq_refl))). assert (forall c0, In c0 l -> In c0 (x :: y :: ns)) as Hl'.
+          { intros c0 Hc0. apply Hl. right. exact Hc0. }
+          specialize (IHl Hl'). lia. }
+      specialize (M (x :: y :: ns) (fun c Hc => Hc)). lia.
+  Qed.
+
+  (* --- the round trip of a whole tree --- *)
+
+  Theorem roundtrip n :
+    safe n = true -> is_not_all n = false -> all_whitespace (tl n) = false ->
+    parse (tl n) = PRNode n.
+  Proof.
+    intros S NA W. unfold parse. rewrite W.
+    destruct (all_good n S) as [Hq _].
+    destruct (Hq (List.length (tl n)) [] (Nat.le_trans _ _ _ (depth_le_length n S) (Nat.le_succ_diag_r _)) eq_refl)
+      as (items & Pq & Fq).
+    rewrite app_nil_r in Pq. rewrite Pq. cbn [skip]. rewrite Fq.
+    destruct n; try reflexivity. destruct n; try reflexivity. discriminate.
+  Qed.
+End Main.
+
+(* the parser never answers NOT *:* for a whole query (visit_query turns it into MatchNoDocs) *)
+Lemma finish_not_all q n : finish q = VOk n -> is_not_all n = false.
+Proof.
+  destruct q; cbn; intros H; inversion H; subst; try reflexivity.
+  destruct q; inversion H; subst; reflexivity.
+Qed.
+
+Lemma fold_items_not_all df items : forall b grp grps n,
+  fold_items df items b grp grps = VOk n -> is_not_all n = false.
+Proof.
+  induction items as [|it items IH]; intros b grp grps n H.
+  - cbn [fold_items] in H. apply finish_not_all in H. exact H.
+  - cbn [fold_items] in H. destruct it as [ts|[|]|[|]|[m|]]; try (eapply IH; exact H). discriminate.
+Qed.
+
+Theorem parse_not_all q n : parse q = PRNode n -> is_not_all n = false.
+Proof.
+  unfold parse. destruct (all_whitespace q); [intros H; inversion H; reflexivity|].
+  destruct (parse_query _ _ q) as [[items rest]|]; [|discriminate].
+  destruct (skip rest); [|discriminate].
+  destruct (fold_query DEFAULT_FIELD items) eqn:F; [|discriminate].
+  intros H; inversion H; subst. unfold fold_query in F. eapply fold_items_not_all; exact F.
+Qed.
+
+(* the property in its own words: what the parser produced, printed and parsed again *)
+Theorem text_roundtrip fdisp fok :
+  (forall f, fok f = true -> num_text_ok (fdisp f) (CFloat f)) ->
+  forall q n, parse q = PRNode n -> safe fok n = true -> all_whitespace (to_lucene fdisp n) = false ->
+  parse (to_lucene fdisp n) = parse q.
+Proof.
+  intros Hf q n P S W. rewrite P. apply roundtrip with (fok := fok); auto. apply (parse_not_all q n P).
+Qed.
